@@ -29,6 +29,8 @@ def run(ctx: Ctx) -> None:
     _memo.rule_memo_sound(ctx, ['graphiq/backends/density_matrix/functions.py', 'graphiq/metrics.py', 'graphiq/backends/density_matrix/state.py'])
     _memo.rule_falsy_zero(ctx, ['graphiq/backends/density_matrix/functions.py', 'graphiq/metrics.py', 'graphiq/backends/density_matrix/state.py'])
     _memo.rule_arg_names(ctx, ['graphiq/backends/density_matrix/functions.py', 'graphiq/metrics.py', 'graphiq/backends/density_matrix/state.py'])
+    _memo.rule_fixed_width(ctx, ['graphiq/backends/density_matrix/functions.py', 'graphiq/metrics.py', 'graphiq/backends/density_matrix/state.py'])
+    _memo.rule_paste_incomplete(ctx, ['graphiq/backends/density_matrix/functions.py', 'graphiq/metrics.py', 'graphiq/backends/density_matrix/state.py'])
     numeric.rule_adjoint(ctx, [DMF, DMS])
     numeric.rule_einsum_trace(ctx)
     numeric.rule_raise_warning(ctx, [(DMF, "fidelity"), (DMF, "trace_distance"), (DMF, "partial_trace"),
